@@ -251,9 +251,27 @@ pub proof fn lemma_grew_trans(a: Seq<Seq<u8>>, b: Seq<Seq<u8>>, c: Seq<Seq<u8>>)
 pub open spec fn grew(old_sent: Seq<Seq<u8>>, new_sent: Seq<Seq<u8>>) -> bool {
     old_sent.len() <= new_sent.len() && forall|i: int| 0 <= i < old_sent.len() ==> #[trigger] new_sent[i] == old_sent[i]
 }
+// ---- C08: fragments as plain data, their concatenation, and two small lemmas ----
+pub struct Frag { pub number: u8, pub payload: Seq<u8> }
+pub open spec fn frags_of(v: Seq<SplitPacket>) -> Seq<Frag> { Seq::new(v.len(), |i: int| Frag { number: v[i].number, payload: v[i].payload@ }) }
+pub open spec fn join_frags(s: Seq<Frag>) -> Seq<u8>
+    decreases s.len()
+{
+    if s.len() == 0 { Seq::empty() } else { join_frags(s.drop_last()) + s.last().payload }
+}
+pub proof fn lemma_join_push(s: Seq<Frag>, f: Frag)
+    ensures join_frags(s.push(f)) == join_frags(s) + f.payload
+{
+    assert(s.push(f).drop_last() =~= s);
+}
+pub proof fn lemma_frags_push(v: Seq<SplitPacket>, p: SplitPacket)
+    ensures frags_of(v.push(p)) == frags_of(v).push(Frag { number: p.number, payload: p.payload@ })
+{
+    assert(frags_of(v.push(p)) =~= frags_of(v).push(Frag { number: p.number, payload: p.payload@ }));
+}
 impl ValveProtocol {
 /*@ fn file=crates/lib/src/protocols/valve/protocol.rs impl="impl ValveProtocol" name=receive props=C01,C13,C02,C08
-use R16 R17 R18 R8:sort_by_field R8:extend_vec
+use R16:all R17 R18 R8:sort_by_field R8:extend_vec
 fn_attrs {
 #[verifier::loop_isolation(false)]
 }
@@ -268,17 +286,89 @@ spec {
                  && final(self).socket.pending() < old(self).socket.pending(),
 }
 body_start {
-    broadcast use group_alloc;
+    broadcast use group_alloc, axiom_default_vec_u8;
 }
 loop 1 {
     invariant
         self.socket.sent() == old(self).socket.sent(), self.retry_count == old(self).retry_count, self.socket.attempts() == old(self).socket.attempts(),
         self.socket.recvd() >= old(self).socket.recvd() + 1, self.socket.pending() < old(self).socket.pending(),
+        // C08: one fragment is read per iteration, whatever its number
+        chunk_packets@.len() == verif_it1.index@,
+}
+after "idiom_sort_by_number(&mut chunk_packets);" {
+    // C08: every fragment announced by the first datagram has been read (no early exit on a "last" fragment) ...
+    assert(main_packet.total >= 1 ==> chunk_packets@.len() == main_packet.total - 1);
+    // ... and from here on the arrival order is gone: `cs` is ordered by fragment number
+    let ghost cs = chunk_packets@;
+    let ghost first = Frag { number: main_packet.number, payload: main_packet.payload@ };
+    let ghost mut placed: Seq<Frag> = Seq::empty();
+    let ghost mut k: int = -1;
+    proof { assert(sorted_by_number(cs)); }
 }
 loop 2 {
     invariant
         self.socket.sent() == old(self).socket.sent(), self.retry_count == old(self).retry_count, self.socket.attempts() == old(self).socket.attempts(),
         self.socket.recvd() >= old(self).socket.recvd() + 1, self.socket.pending() < old(self).socket.pending(),
+        // C08: the payload assembled so far is the concatenation of `placed`, which is the first verif_it2.index@ chunks in number
+        // order with the first-arrived fragment inserted at position k once a chunk with a higher number has been met
+        0 <= verif_it2.index@ <= cs.len(), cs == chunk_packets@, sorted_by_number(cs),
+        main_packet.number == first.number,
+        main_packet.payload@ == join_frags(placed),
+        first_payload is Some <==> k < 0,
+        first_payload is Some ==> first_payload->Some_0@ == first.payload && placed == frags_of(cs.subrange(0, verif_it2.index@ as int))
+            && forall|j: int| 0 <= j < verif_it2.index@ ==> (#[trigger] cs[j]).number <= first.number,
+        k >= 0 ==> k < verif_it2.index@ && placed == frags_of(cs.subrange(0, k)).push(first) + frags_of(cs.subrange(k, verif_it2.index@ as int))
+            && cs[k].number > first.number && forall|j: int| 0 <= j < k ==> (#[trigger] cs[j]).number <= first.number,
+}
+before "if chunk_packet.number > main_packet.number {" {
+    let ghost idx = verif_it2.index@ as int;
+    proof {
+        assert(chunk_packet == cs[idx]);
+        assert(cs.subrange(0, idx + 1) =~= cs.subrange(0, idx).push(cs[idx]));
+        lemma_frags_push(cs.subrange(0, idx), cs[idx]);
+        if k >= 0 {
+            assert(cs.subrange(k, idx + 1) =~= cs.subrange(k, idx).push(cs[idx]));
+            lemma_frags_push(cs.subrange(k, idx), cs[idx]);
+        }
+    }
+}
+after "idiom_extend_vec(&mut main_packet.payload, chunk_packet.payload);" {
+    proof {
+        let f = Frag { number: cs[idx].number, payload: cs[idx].payload@ };
+        if k < 0 && cs[idx].number > first.number {
+            k = idx;
+            assert(cs.subrange(idx, idx) =~= Seq::<SplitPacket>::empty());
+            assert(frags_of(cs.subrange(idx, idx)) =~= Seq::<Frag>::empty());
+            lemma_join_push(placed, first);
+            placed = placed.push(first);
+            assert(placed =~= frags_of(cs.subrange(0, k)).push(first) + frags_of(cs.subrange(k, idx)));
+        }
+        lemma_join_push(placed, f);
+        placed = placed.push(f);
+        if k >= 0 {
+            assert(placed =~= frags_of(cs.subrange(0, k)).push(first) + frags_of(cs.subrange(k, idx + 1)));
+        }
+    }
+}
+after `idiom_extend_vec(&mut main_packet.payload, first_payload.take().unwrap_or_default());` #2 {
+    proof {
+        assert(cs.subrange(0, cs.len() as int) =~= cs);
+        if k < 0 {
+            lemma_join_push(placed, first);
+            placed = placed.push(first);
+            k = cs.len() as int;
+            assert(cs.subrange(k, cs.len() as int) =~= Seq::<SplitPacket>::empty());
+            assert(frags_of(cs.subrange(k, cs.len() as int)) =~= Seq::<Frag>::empty());
+        }
+        // C08: the assembled payload is the concatenation, in ascending fragment number, of ALL fragments: the chunks sorted by
+        // number with the first-arrived fragment at its place.  It depends on the set of fragments only, not on the arrival order.
+        assert(main_packet.payload@ == join_frags(placed));
+        assert(placed == frags_of(cs.subrange(0, k)).push(first) + frags_of(cs.subrange(k, cs.len() as int)));
+        assert(forall|j: int| 0 <= j < k ==> (#[trigger] cs[j]).number <= first.number);
+        assert(forall|j: int| k <= j < cs.len() ==> (#[trigger] cs[j]).number > first.number) by {
+            assert(forall|j: int| k <= j < cs.len() ==> cs[k].number <= (#[trigger] cs[j]).number);
+        }
+    }
 }
 @*/
 
